@@ -42,7 +42,10 @@ def _chunk(cases):
         try:
             if c["old"]:
                 env.write(c["path"], c["old"])
-            args = ["template", "init"] + (["-f"] if c["overwrite"] else []) + [str(env.path(c["path"]))] + \
+            target = str(env.path(c["path"]))
+            if c.get("noext"):
+                target = target[:-3]
+            args = ["template", "init"] + (["-f"] if c["overwrite"] else []) + [target] + \
                    ([f"extra={c['extra']}"] if c["extra"] else [])
             seen = []
             for call, want in ((1, c["once"]), (2, c["twice"])):
@@ -58,7 +61,7 @@ def _chunk(cases):
                             rc, exc, out, err = 0, None, "", ""
                         r = _R()
                         try:
-                            init_from_template(env.zdir, {re.compile(REGEX[p]): Path(f"tmpl/{p}.zot") for p in c["map"]}, env.path(c["path"]),
+                            init_from_template(env.zdir, {re.compile(REGEX[p]): Path(f"tmpl/{p}.zot") for p in c["map"]}, Path(target),
                                                template=Path("tmpl/explicit.zot"), var_map=({"extra": c["extra"]} if c["extra"] else {}),
                                                should_overwrite_existing=c["overwrite"])
                         except Exception as e:  # noqa: BLE001
